@@ -329,6 +329,13 @@ Definition pm_op (s o : pomd) (op_ : op) : res (pomd * out) :=
   (* dict.__or__ / __ror__ on a subclass: merged through keys() and __getitem__ *)
   | OrMap m => do l <- pm_items1 s; Ok (s, OPairs (dict_merge l m))
   | ROrMap m => do l <- pm_items1 s; Ok (s, OPairs (dict_merge m l))
+  (* KeysView / ValuesView / ItemsView iterate the mapping and index it; dict(d) goes through
+     keys() and __getitem__; bool(d) is len(d) != 0 *)
+  | ViewKeys => Ok (s, OList (pm_iterkeys s))
+  | ViewValues => do l <- pm_items1 s; Ok (s, OList (map snd l))
+  | ViewItems => do l <- pm_items1 s; Ok (s, OPairs l)
+  | DictOf => do l <- pm_items1 s; Ok (s, OPairs l)
+  | Truth => Ok (s, OBool (match pstore s with [] => false | _ => true end))
   (* the loop of update()/update_extend() runs over the well-formed prefix, then the malformed
      item raises (unpacking, or hashing the key in `k not in seen` / dict.setdefault) *)
   | UpdateBad l b => do s1 <- p_upd_pairs s [] l; Ok (s1, ORaised (bad_exn b))
